@@ -4,7 +4,9 @@ NOTES = ("Every check: regenerate PW/Gen from /repo, lake build of the property'
          "property oracle for failing-input search, known_findings.json. About one case in eight is also run as the second "
          "call of a history pair (the caller's argument objects reused / updated in place / results edited, pwlib/share.py), "
          "compared with the model's answer for that call alone; about one lattice case in six is also run with its whole-number "
-         "arguments handed to the library as int64 arrays (same mathematical input, same expected answer). 'Source ties' are gen_* theorems equating literals read from "
+         "arguments handed to the library as int64 arrays, and one case in twelve with its arguments as non-contiguous views, "
+         "write-protected or column-major arrays, or with Python bools / floats as NumPy scalars (same mathematical input, same "
+         "expected answer). 'Source ties' are gen_* theorems equating literals read from "
          "the Python source by the translator (operators, offsets, coefficients, refusal order, raised classes) with what the "
          "model uses. See DESIGN.md.")
 
